@@ -16,8 +16,8 @@ func VerifC04_AIMD_Step() {
 	limit := verif.Int("limit")
 	inc := verif.Int("increaseBy")
 	verif.Assume(limit >= 1 && limit < 1<<31 && inc < 1<<31)
-	ratios := []float64{0.9, 0.5, 1.0, 0.1, 0.99}
-	ratio := ratios[verif.Choice("ratio", verif.Tiered(3, len(ratios)))]
+	ratios := []float64{0.9, 0.1, 1.0, 0.5, 0.0, 0.99, 0.3}
+	ratio := ratios[verif.Choice("ratio", verif.Tiered(5, len(ratios)))]
 	l := NewAIMDLimit("aimd", limit, ratio, inc, nil)
 	rtt := verif.Int64("rtt")
 	inflight := verif.Int("inflight")
